@@ -32,13 +32,13 @@ Qed.
 (* a raw event's descriptor has something to read *)
 Definition RawRd (k : kernel) (s : core) (j : Z) : Prop :=
   exists v, k_open k (rw_rfd s j) = Some v /\ 0 < vcnt v /\
-            ((efd_raw s = 0 /\ vkind v = K_PIPE_R) \/ (efd_raw s <> 0 /\ vkind v = K_EVENTFD)).
+            ((raw_is_pipe s j = true /\ vkind v = K_PIPE_R) \/ (raw_is_pipe s j = false /\ vkind v = K_EVENTFD)).
 
 Lemma RawRd_not_dry : forall s j, RawRd (kern s) s j -> Dry s j -> False.
 Proof.
   intros s j (v & O & N & [[E K]|[E K]]) D; unfold Dry, toread in D.
-  - rewrite E in D. cbn [Z.eqb] in D. destruct (read_pipe _ _ _ 1024 O K N ltac:(lia)) as (n & R & _). rewrite R in D. discriminate D.
-  - destruct (Z.eqb_spec (efd_raw s) 0); [contradiction|]. rewrite (read_eventfd _ _ _ 8 O K ltac:(lia) ltac:(lia)) in D. discriminate D.
+  - rewrite E in D. destruct (read_pipe _ _ _ 1024 O K N ltac:(lia)) as (n & R & _). rewrite R in D. discriminate D.
+  - rewrite E in D. rewrite (read_eventfd _ _ _ 8 O K ltac:(lia) ltac:(lia)) in D. discriminate D.
 Qed.
 
 (* ---------- conditions of library-created descriptors ---------- *)
@@ -84,17 +84,17 @@ Lemma raw_ready : forall s kx j, InvW s -> rw_reg s j = true -> vfds kx = vfds (
   rbits (k_cond kx (rw_rfd s j)) B_IN <> 0 -> RawRd (kern s) s j /\ has (k_cond kx (rw_rfd s j)) B_IN = true.
 Proof.
   intros s kx j I RJ VX NZ. pose proof (dy_kern _ (CoreInvDefs.iw_dyn _ I) j RJ) as DK.
-  destruct (Z.eqb_spec (efd_raw s) 0) as [E0|NE0].
+  destruct (raw_is_pipe s j) eqn:E0.
   - destruct DK as (_ & _ & v & vw & O1 & K1 & _ & PO & _).
     pose proof O1 as O1'. apply k_open_get in O1'. destruct O1' as [G _]. rewrite <- (get_same kx _ _ VX) in G.
     rewrite (cond_pipe_r kx _ v G K1 PO) in *. destruct (has_small2 (0 <? vcnt v)) as (H1 & H2 & H3).
     destruct (rbits_in_only _ NZ) as [X|[X|X]]; try congruence. rewrite H3 in X.
-    split; [exists v; split; [exact O1|split; [apply Z.ltb_lt; exact X|left; split; assumption]]|rewrite H3; exact X].
+    split; [exists v; split; [exact O1|split; [apply Z.ltb_lt; exact X|left; split; [exact E0|assumption]]]|rewrite H3; exact X].
   - destruct DK as (_ & _ & v & O1 & K1).
     pose proof O1 as O1'. apply k_open_get in O1'. destruct O1' as [G _]. rewrite <- (get_same kx _ _ VX) in G.
     rewrite (cond_eventfd kx _ v G K1) in *. destruct (has_small (0 <? vcnt v)) as (H1 & H2 & H3).
     destruct (rbits_in_only _ NZ) as [X|[X|X]]; try congruence. rewrite H3 in X.
-    split; [exists v; split; [exact O1|split; [apply Z.ltb_lt; exact X|right; split; assumption]]|rewrite H3; exact X].
+    split; [exists v; split; [exact O1|split; [apply Z.ltb_lt; exact X|right; split; [exact E0|assumption]]]|rewrite H3; exact X].
 Qed.
 
 (* the internal raw event never has anything to read *)
